@@ -13,15 +13,23 @@ import (
 // by the independent walker: 64-bit mdat header, mdat moved before or after moov, mdat as the
 // last bytes of the file, free box inserted before mdat. Chunk offsets are patched. No mp4ff code involved.
 type LayoutVariant struct {
-	LargeMdat bool
-	MdatFirst bool // mdat directly after ftyp, before moov
-	MdatLast  bool // mdat moved to the very end
-	FreePad   int  // size of a free box put right before mdat (0 = none; >=8)
-	EmptyMdat int  // extra EMPTY mdat box (legal): 0 none, 1 directly after the real one, 2 directly before it, 3 at the very end
+	LargeMdat  bool
+	MdatFirst  bool // mdat directly after ftyp, before moov
+	MdatLast   bool // mdat moved to the very end
+	FreePad    int  // size of a free box put right before mdat (0 = none; >=8)
+	EmptyMdat  int  // extra EMPTY mdat box (legal): 0 none, 1 directly after the real one, 2 directly before it, 3 at the very end
+	EmptyLarge bool // the extra empty mdat uses the 64-bit size form (16-byte header, no payload)
 }
 
 func (v LayoutVariant) String() string {
-	return fmt.Sprintf("large=%v mdatFirst=%v mdatLast=%v free=%d emptyMdat=%d", v.LargeMdat, v.MdatFirst, v.MdatLast, v.FreePad, v.EmptyMdat)
+	return fmt.Sprintf("large=%v mdatFirst=%v mdatLast=%v free=%d emptyMdat=%d/%v", v.LargeMdat, v.MdatFirst, v.MdatLast, v.FreePad, v.EmptyMdat, v.EmptyLarge)
+}
+
+func (v LayoutVariant) emptyMdat() []byte {
+	if v.EmptyLarge {
+		return []byte{0, 0, 0, 1, 'm', 'd', 'a', 't', 0, 0, 0, 0, 0, 0, 0, 16}
+	}
+	return []byte{0, 0, 0, 8, 'm', 'd', 'a', 't'}
 }
 
 // ApplyLayout returns the rewritten file.
@@ -96,7 +104,7 @@ func ApplyLayout(data []byte, v LayoutVariant) ([]byte, error) {
 			copy(fb[4:], "free")
 			out = append(out, fb...)
 		}
-		empty := []byte{0, 0, 0, 8, 'm', 'd', 'a', 't'}
+		empty := v.emptyMdat()
 		if v.EmptyMdat == 2 {
 			out = append(out, empty...)
 		}
@@ -120,7 +128,7 @@ func ApplyLayout(data []byte, v LayoutVariant) ([]byte, error) {
 		emitMdat()
 	}
 	if v.EmptyMdat == 3 {
-		out = append(out, 0, 0, 0, 8, 'm', 'd', 'a', 't')
+		out = append(out, v.emptyMdat()...)
 	}
 	delta := newPayloadStart - mdat.Payload()
 	// patch chunk offsets inside the copied moov
